@@ -10,6 +10,7 @@
      "in"   the radio loop put the packet p into in_queue       "og"  it took p (or <<>>) from out_queue
      "sub"  RadioDriver.send_packet(p) returned True             "rcv" receive_packet returned p
      "cfq"  the Crazyflie queued p                               "err" link_error_callback was called
+     "rej"  RadioDriver.send_packet returned False (not accepted)
 
    monitor (the verdict):  the events rebuild the observable history record of SafelinkProps; the
        peer's behaviour (which frames it takes as new, what it answers) is RE-DERIVED here with
@@ -133,9 +134,13 @@ MErr == /\ Ev.e = "err"
         /\ errOwed' = FALSE
         /\ Conform(errOwed /\ UNCHANGED specvars)
 
+\* send_packet returned False: the packet was not accepted, nothing to record
+MRej == /\ Ev.e = "rej"
+        /\ UNCHANGED <<monvars, bad, badAt, mach, errOwed, specvars, conf, confAt>>
+
 Step == /\ l <= Len(T.ev)
         /\ l' = l + 1 /\ UNCHANGED tid
-        /\ (MTx \/ MIn \/ MOg \/ MSub \/ MRcv \/ MCfq \/ MErr)
+        /\ (MTx \/ MIn \/ MOg \/ MSub \/ MRcv \/ MCfq \/ MErr \/ MRej)
 
 \* end of trace.  T.fin: quiet = every application sender has returned and the radio loop is
 \* parked at its next transmission; inq = len(in_queue) (cross-checked against the events)
